@@ -6,6 +6,7 @@
 
 #include "common/genjson.hpp"
 #include "common/harness.hpp"
+#include "common/mutate.hpp"
 #include "common/refjson.hpp"
 #include "common/sonic_mv.hpp"
 
@@ -92,6 +93,13 @@ static void property(Src& s, Case& c) {
   lay.pad_max = s.coin(1, 2) ? 130 : 0;
   MV v = gen_value(s, go);
   std::string text = render(s, v, lay);
+  if (s.coin(1, 16)) {  // maximally dense text (one byte per scalar, no white space): the value is what the reference reads
+    text = dense_text(s);
+    refjson::Result rr = refjson::parse(text);
+    if (!rr.ok) c.fail("ORACLE-SELF-CHECK: dense text rejected by the reference");
+    v = rr.value;
+    c.cls("text:dense");
+  }
   // optionally force a container close/open byte onto offset 63/64/65 of a 64-byte block
   if (s.coin(1, 3)) {
     size_t pos = std::string::npos;
